@@ -33,6 +33,28 @@ MUSIG_RULE = ("one run = one seeded Plan: signer count, key multiset, tweaks, no
               "comparison against the BIP-327/BIP-340 model (or the single-use model) happened after it; distinct = distinct Plan hash")
 
 CHECKS = {
+    "C01": {
+        "worlds": [{"name": "sigsvc", "variants": {"quick": ["ship", "asan"], "thorough": ["ship", "asan", "alt"]},
+                    "runs": {"quick": 48, "thorough": 4000}, "secondary_share": 0.25}],
+        "rule": "fault enumeration at the nonce-callback seam: every run covers the complete table 120 outcome sequences (<= 3 retrying outcomes {zero nonce, nonce >= n, nonce forcing s = 0} "
+                "then {pass-through returning 1, pass-through returning another non-zero value, return 0}) x 4 key classes {valid, 0, n, 2^256-1} x {ecdsa_sign, ecdsa_sign_recoverable} "
+                "x 3 context kinds = 2880 cells; keys, messages (classes incl. >= n), extra data vary with the seed; non-trivial = a fault fired and the loop model was compared; distinct = distinct Plan hash",
+        "evaluations_probe": "cells", "exhaustive_table": True,
+        "components": COMPONENTS,
+        "assumptions": ["only the failure/retry clause of C01 is decided; verification exactness and RFC 6979 conformance over all inputs are input-space and not claimed",
+                        "every seventh cell additionally compares the signature bytes with the model's RFC 6979 + ECDSA (oracle strengthening, not a conformance claim)"],
+    },
+    "C07": {
+        "worlds": [{"name": "store", "variants": {"quick": ["asan", "ship"], "thorough": ["asan", "ship", "alt"]},
+                    "runs": {"quick": 4000, "thorough": 200000}, "secondary_share": 0.5}],
+        "rule": "one run = one seeded Plan: 4..40 reads of stored artifacts (20 artifact types x 9 disk conditions: intact, bit rot, torn between two valid artifacts, short, extended, "
+                "stale, misdirected, zero block, FF block) each followed by parse, verify and use of whatever parsed; allocator faults on the allocating parse path; monitors: "
+                "ASan/UBSan/VERIFY_CHECK (asan variant), callback counters, 0/1 returns, canaries, leak accounting; non-trivial = a disk fault altered the record and the monitors "
+                "were evaluated after it; distinct = distinct Plan hash",
+        "components": COMPONENTS,
+        "assumptions": ["scoped claim: only byte strings that faults produce from valid artifacts are explored, not all byte strings; crafted count fields are input-space",
+                        "the always-on monitors also ride on every other world and report under C07"],
+    },
     "C12": {
         "worlds": [{"name": "musig", "variants": {"quick": ["ship", "asan_nv"], "thorough": ["ship", "asan_nv", "alt"]},
                     "runs": {"quick": 6000, "thorough": 300000}, "secondary_share": 0.1}],
